@@ -61,7 +61,7 @@ def main(tier):
     nontrivial = set()
     samples = []
     dist = {"triggered": 0, "window_not_full": 0, "unmonitored": 0, "below": 0, "detected": 0}
-    coord_stats = {}
+    coord_stats = {"focus": "C17"}
     orig_random = GD.random
     if info.get("build_ok") and info.get("tables"):
         rng = random.Random(7919 * seed() + 17)
@@ -162,8 +162,9 @@ def main(tier):
                 cfg["env"]["use_global_defender"] = True
                 cfg["coordinator"]["agents"]["Attacker"]["max_steps"] = r.choice([5, 6, 7, 8, 10])
                 return cfg
-            CC.run_sessions(drv, rng, tabs, cfail, coord_stats, 40 if tier == "quick" else 400, 45,
-                            {"bad": 0.01, "leave": 0.02, "roles": ["Attacker", "Attacker", "Defender"]}, cfg_gen=cfg_gen)
+            CC.run_sessions(drv, rng, tabs, cfail, coord_stats, 80 if tier == "quick" else 800, 45,
+                            {"bad": 0.01, "leave": 0.02, "roles": ["Attacker", "Attacker", "Defender"], "outcome_mix": True,
+                             "force_env": {"use_global_defender": True}, "attacker_max_steps": [6, 7, 8, 10, 12]}, cfg_gen=cfg_gen)
         finally:
             GD.random = orig_random
             drv.close()
